@@ -287,7 +287,8 @@ class AgentWorld(object):
             open_socks = sorted(self.sock_ids[id(s)] for pair in self.netw.pairs for s in pair[:2]
                                 if self.sock_owner.get(id(s)) == who and not s.closed)
             listening = sorted(port for ((_addr, port), lst) in self.netw.listeners.items() if lst.owner == who)
-            self.emit('Final', who=who, open_socks=open_socks, handlers=len(ag._handlers),
-                      paths=sorted(str(p) for p in ag._path_to_handler), listening=listening,
+            paths = sorted(str(p) for p in ag.get_connections())     # public view of the connection table
+            self.emit('Final', who=who, open_socks=open_socks, handlers=len(paths),
+                      paths=paths, listening=listening,
                       stopped=self.stopped[who], on_bus=bool(tuple(ag.locations)))
         return self.log
